@@ -24,6 +24,7 @@ struct RepoSpec {
 }
 
 fn one(rep: &mut Reporter, seed: u64) {
+    rep.case(seed);
     let mut rng = Rng::new(seed);
     let tmp = vcommon::scratch_dir();
     let default_allow = rng.chance(1, 4);
